@@ -30,7 +30,10 @@ ASSUMPTIONS = ['alpha, shift rational (every float is); phases multiples of 1/L 
                'Gaussian-integer input data; comparison tolerance 1e-9*(1+max|model|)']
 RULE = ('random dft2/idft2/round-trip cases: shapes 1..7 (odd, even, 1, non-square), alpha_r, alpha_c = p/q independent, '
         'shifts k/4 or k/2, offsets in [-6,6], both flags, out in {None, complex buffer, f itself, float buffer, wrong shape} (dft2 and idft2); '
-        'inputs scaled by 1e-13..1e12 (scale covariance), ndarray subclasses (np.matrix, MaskedArray without masked entries, a metadata '
+        'the entry points with every argument form (scalar, 0-d, 1- / 2- / 3- / 0-element sequences, ndarrays, nested), shape None / '
+        'scalar / zero / negative, inputs of rank 0, 1, 3 and empty inputs, and every kind of out= buffer (complex128, float, int, bool, '
+        'complex64, clongdouble, object, Fortran order, strided, transposed, wrong shape): values and exception kinds compared with '
+        'the model; inputs scaled by 1e-13..1e12 (scale covariance), ndarray subclasses (np.matrix, MaskedArray without masked entries, a metadata '
         'subclass) and Fortran / strided layouts, np.bool_ / int flags, caller input unchanged; near-tie histories (shift or alpha '
         'differing past the 6th decimal between calls); kernels above 2**20 elements with output lengths not divisible by 2, 3, 4; '
         'every real input dtype (int64/32/8, uint8, bool, float64/32/16) through dft2 and idft2; structured inputs: a dense block in a grid of zeros at every (grid length <= 6/7, start, end) per axis, single lit samples, zero '
@@ -46,6 +49,8 @@ def lcm(a, b):
 
 
 def case_L(c):
+    if c['op'] == 'api':
+        return api_L(c)
     if c['op'] in ('hist', 'large'):
         return 1
     ar, ac = Fraction(c['ar']), Fraction(c['ac'])
@@ -203,6 +208,174 @@ def gen_history(rng, maxn):
         return c
 
 
+# ------------------------------------------------------------------ the entry points: argument forms, defaults, refusals
+OUT_KINDS = ['none', 'none', 'none', 'complex', 'complex', 'float', 'int', 'bool', 'complex64', 'clongdouble', 'object',
+             'fortran', 'sliced', 'badshape', 'transposed']
+
+
+def mutate_form(rng, a, b, allow_bad=True):
+    """one of the forms an argument that is broadcast to two values can arrive in; ['s', v] scalar / 0-d,
+    ['q', [..]] a 1-d sequence, ['n', rows] two or more dimensions"""
+    t = rng.random()
+    if t < 0.35:
+        return ['q', [a, b]], (a, b)
+    if t < 0.5:
+        return ['s', a], (a, a)
+    if t < 0.6:
+        return ['q', [a]], (a, a)
+    if t < 0.7:
+        return ['s0', a], (a, a)            # a 0-d array
+    if not allow_bad or t < 0.8:
+        return ['qa', [a, b]], (a, b)       # a 1-d ndarray
+    return rng.choice([['q', []], ['q', [a, b, a]], ['n', [[a, b]]], ['n', [[a], [b]]], ['q', [a, b, a, b]]]), None
+
+
+def gen_api(rng, maxn):
+    for _ in range(200):
+        fn = rng.choice(['dft2', 'dft2', 'idft2'])
+        m, n = rng.randint(1, maxn), rng.randint(1, maxn)
+        if rng.random() < 0.05:
+            m = 0                                   # an empty input is legal
+        bad_ok = rng.random() < 0.6
+        al, ex_al = mutate_form(rng, str(rnd_alpha(rng, max(m, 1))), str(rnd_alpha(rng, n)), bad_ok and rng.random() < 0.35)
+        st, ex_st = mutate_form(rng, str(Fraction(rng.randint(-4, 4), rng.choice([1, 2, 4]))),
+                                str(Fraction(rng.randint(-4, 4), rng.choice([1, 2]))), bad_ok and rng.random() < 0.35)
+        off, ex_off = mutate_form(rng, rng.randint(-4, 4), rng.randint(-4, 4), bad_ok and rng.random() < 0.35)
+        t = rng.random()
+        if t < 0.3:
+            sh, ex_sh = None, (m, n)
+        else:
+            M = rng.choice([0, -1, -3]) if rng.random() < 0.1 else rng.randint(1, maxn)
+            sh, ex_sh = mutate_form(rng, M, rng.randint(1, maxn), bad_ok and rng.random() < 0.35)
+        rank = 2
+        if bad_ok and rng.random() < 0.2:
+            rank = rng.choice([0, 1, 3])
+        c = {'op': 'api', 'fn': fn, 'rank': rank, 'f': rnd_data(rng, m, n) if m else [], 'ncols': n,
+             'alpha': al, 'shape': sh, 'shift': st, 'offset': off, 'unitary': rng.random() < 0.5,
+             'out': rng.choice(OUT_KINDS)}
+        if fn == 'idft2':
+            c['offset'] = ['q', [0, 0]]
+            ex_off = (0, 0)
+            if m == 0 and not c['unitary']:
+                c['unitary'] = True                 # 0/0: not modelled
+        valid = rank == 2 and None not in (ex_al, ex_st, ex_off, ex_sh)
+        if valid and (ex_sh[0] <= 0 or ex_sh[1] <= 0) and c['out'] != 'none':
+            c['out'] = 'none'
+        c['valid'] = valid
+        c['expanded'] = [list(ex_al), list(ex_sh), list(ex_st), list(ex_off)] if valid else None
+        if api_L(c) <= 96:
+            return c
+    return c
+
+
+def form_numbers(fm):
+    if fm is None:
+        return []
+    if fm[0] in ('s', 's0'):
+        return [fm[1]]
+    if fm[0] in ('q', 'qa'):
+        return list(fm[1])
+    return [v for row in fm[1] for v in row]
+
+
+def api_L(c):
+    L = 1
+    for v in form_numbers(c['alpha']):
+        for w in form_numbers(c['shift']) or [0]:
+            L = lcm(L, Fraction(v).denominator * Fraction(w).denominator)
+    return L
+
+
+def enc_form(fm, enc):
+    if fm[0] in ('s', 's0'):
+        return [0] + enc(fm[1])
+    if fm[0] in ('q', 'qa'):
+        out = [1, len(fm[1])]
+        for v in fm[1]:
+            out += enc(v)
+        return out
+    return [2]
+
+
+def api_out_code(c, ex_shape):
+    """what the model is told about the buffer: read off the actual numpy buffer (dtype class, C-array flag, shape)"""
+    out = api_make_out(c, ex_shape)
+    if out is None:
+        return [0]
+    if not np.can_cast(complex, out.dtype):
+        dt = 1
+    elif out.dtype == np.complex128:
+        dt = 0
+    else:
+        dt = 2
+    return [1, dt, 1 if out.flags.carray else 0, int(out.shape[0]), int(out.shape[1])]
+
+
+def api_make_out(c, ex_shape):
+    k = c['out']
+    if k == 'none':
+        return None
+    M, N = ex_shape if ex_shape else (1, 1)
+    M, N = max(0, M), max(0, N)
+    if k == 'complex':
+        return np.full((M, N), 3 - 2j, dtype=complex)
+    if k in ('float', 'int', 'bool', 'complex64', 'clongdouble', 'object'):
+        return np.zeros((M, N), dtype={'float': float, 'int': np.int64, 'bool': np.bool_, 'complex64': np.complex64,
+                                       'clongdouble': np.clongdouble, 'object': object}[k])
+    if k == 'fortran':
+        return np.asfortranarray(np.zeros((M, N), dtype=complex))
+    if k == 'sliced':
+        return np.zeros((M, 2 * N + 1), dtype=complex)[:, ::2][:, :N]
+    if k == 'transposed':
+        return np.zeros((N, M), dtype=complex).T if M != N else np.zeros((M, N), dtype=complex).T
+    return np.zeros((M + 1, N), dtype=complex)
+
+
+def py_form(fm, conv):
+    if fm is None:
+        return None
+    if fm[0] == 's':
+        return conv(fm[1])
+    if fm[0] == 's0':
+        return np.array(conv(fm[1]))
+    if fm[0] == 'q':
+        return [conv(v) for v in fm[1]]
+    if fm[0] == 'qa':
+        return np.array([conv(v) for v in fm[1]])
+    return np.array([[conv(v) for v in row] for row in fm[1]])
+
+
+def run_api(lentil, c):
+    qf = lambda v: float(Fraction(v))
+    if c['rank'] == 2:
+        f = to_np(c['f']) if c['f'] else np.zeros((0, c['ncols']), dtype=complex)
+    elif c['rank'] == 0:
+        f = np.array(1.0 + 2.0j)
+    elif c['rank'] == 1:
+        f = np.arange(3, dtype=complex)
+    else:
+        f = np.ones((2, 2, 2), dtype=complex)
+    ex_shape = tuple(c['expanded'][1]) if c.get('expanded') else None
+    if ex_shape is None and c['shape'] is not None and c['shape'][0] in ('q', 'qa', 's', 's0'):
+        nums = form_numbers(c['shape'])
+        if len(nums) in (1, 2):
+            ex_shape = (nums[0], nums[-1])
+    out = api_make_out(c, ex_shape)
+    kw = {'shape': py_form(c['shape'], int), 'shift': py_form(c['shift'], qf), 'unitary': c['unitary'], 'out': out}
+    try:
+        if c['fn'] == 'dft2':
+            F = lentil.fourier.dft2(f, py_form(c['alpha'], qf), offset=py_form(c['offset'], int), **kw)
+        else:
+            F = lentil.fourier.idft2(f, py_form(c['alpha'], qf), **kw)
+        res = {'arr': np.asarray(F).tolist(), 'shape': list(np.asarray(F).shape)}
+        if out is not None:
+            res['same_buffer'] = F is out
+            res['out_differs'] = not np.array_equal(np.asarray(out), np.asarray(F))
+        return res
+    except Exception as e:
+        return {'err': type(e).__name__}
+
+
 def gen_neartie(rng, maxn):
     """2-4 calls with identical shapes, offsets and flags whose shift (or alpha) differs from an earlier call's only past
     the 6th decimal: each call must still be ITS OWN defining sum (memo keys that quantise an argument are a class)"""
@@ -308,6 +481,8 @@ def generate(rng, tier):
         yield gen_neartie(rng, maxn)
     for k in range(4 if tier == 'quick' else 16):
         yield gen_huge(rng, k)
+    for _ in range(120 if tier == 'quick' else 1200):
+        yield gen_api(rng, maxn)
     for c in gen_blocks(rng, tier):
         yield c
     for c in gen_dtypes(rng, tier, maxn):
@@ -365,6 +540,8 @@ def generate(rng, tier):
 
 
 def classify(c):
+    if c['op'] == 'api':
+        return 'api/' + c['fn'] + ('/valid' if c['valid'] else '/malformed') + '/out:' + c['out']
     if c['op'] == 'large':
         fftlike = (c['ar'], c['ac'], c['M'], c['N'], c['shr'], c['shc'], c['offr'], c['offc']) == \
                   (f'1/{c["m"]}', f'1/{c["n"]}', c['m'], c['n'], '0', '0', 0, 0)
@@ -380,6 +557,8 @@ def classify(c):
 
 
 def nontrivial(c):
+    if c['op'] == 'api':
+        return True
     if c['op'] == 'large':
         return True
     if c['op'] == 'hist':
@@ -418,6 +597,18 @@ def enc_out(c):
 
 
 def encode(c):
+    if c['op'] == 'api':
+        L = api_L(c)
+        out = [5 if c['fn'] == 'dft2' else 6, L, c['rank']]
+        if c['rank'] == 2:
+            out += enc_f(c['f']) if c['f'] else [0, c['ncols']]
+        qe = lambda v: C.enc_q(Fraction(v))
+        ze = lambda v: [int(v)]
+        out += enc_form(c['alpha'], qe)
+        out += [0] if c['shape'] is None else [1] + enc_form(c['shape'], ze)
+        out += enc_form(c['shift'], qe) + enc_form(c['offset'], ze) + [1 if c['unitary'] else 0]
+        ex_shape = tuple(c['expanded'][1]) if c.get('expanded') else None
+        return out + api_out_code(c, ex_shape)
     if c['op'] == 'large':
         return None          # too large for the exact group ring: decided by the vectorised defining sum (oracle)
     L = case_L(c)
@@ -435,6 +626,17 @@ def encode(c):
 
 
 def decode(c, ints):
+    if c['op'] == 'api':
+        L = api_L(c)
+        rd = C.Reader(ints, L)
+        st = rd.z()
+        if st == 1:
+            return {'err': C.ERRNAMES[rd.z()]}
+        a = rd.arr()
+        nums = form_numbers(c['alpha'])
+        ar, ac = Fraction(nums[0]), Fraction(nums[-1])
+        scale = math.sqrt(abs(float(ar * ac))) if c['unitary'] else 1.0
+        return {'arr': [[C.kval(v, L) * scale for v in row] for row in a]}
     L = case_L(c)
     rd = C.Reader(ints, L)
     st = rd.z()
@@ -689,6 +891,8 @@ def run_impl(c):
         return run_history(lentil, c)
     if c['op'] == 'large':
         return run_large(lentil, c)
+    if c['op'] == 'api':
+        return run_api(lentil, c)
     f = to_np(c['f'])
     alpha = (float(Fraction(c['ar'])), float(Fraction(c['ac'])))
     try:
@@ -731,6 +935,8 @@ def arr_close(a, b, tol=TOL):
     b = np.asarray(b, dtype=complex)
     if a.shape != b.shape:
         return f'shapes differ: {a.shape} vs {b.shape}'
+    if a.size == 0:
+        return None
     d = np.max(np.abs(a - b)) if a.size else 0.0
     if d > tol * (1 + np.max(np.abs(b))):
         i = np.unravel_index(np.argmax(np.abs(a - b)), a.shape)
@@ -774,6 +980,32 @@ def defining_sum(f, ar, ac, M, N, shr, shc, offr, offc, unitary):
 
 
 def oracle(c, impl):
+    if c['op'] == 'api':
+        if not c['valid']:
+            return None                 # which malformed calls are refused, and how, is the correspondence's business
+        (ar, ac), (M, N), (shr, shc), (offr, offc) = c['expanded']
+        if M < 0 or N < 0:
+            return None                 # what a negative length means is not the property's business either
+        M, N = max(0, M), max(0, N)
+        k = c['out']
+        if k in ('float', 'int', 'bool', 'complex64'):
+            return None if impl.get('err') == 'TypeError' else f'{c["fn"]}: a buffer that cannot hold complex values was not refused with TypeError'
+        if k in ('badshape', 'clongdouble', 'object') or (k in ('fortran', 'transposed', 'sliced') and M > 1 and N > 1):
+            return None if 'err' in impl else f'{c["fn"]}: an unusable buffer ({k}) was accepted'
+        if k in ('fortran', 'transposed', 'sliced'):
+            return None                 # degenerate shapes: the layouts coincide; left to the correspondence
+        if 'err' in impl:
+            return f'{c["fn"]} with valid arguments raised {impl["err"]}'
+        if impl['shape'] != [M, N]:
+            return f'{c["fn"]}: result shape {impl["shape"]} instead of {[M, N]}'
+        if k == 'complex' and (not impl.get('same_buffer') or impl.get('out_differs')):
+            return f'{c["fn"]}(..., out=buf): the result was not written into / returned as the supplied buffer'
+        if M == 0 or N == 0 or not c['f']:
+            got = np.asarray(impl['arr'], dtype=complex)
+            return None if not np.any(got) else f'{c["fn"]} of an empty input / onto an empty output is not zero'
+        one = {'op': c['fn'], 'f': c['f'], 'ar': ar, 'ac': ac, 'M': M, 'N': N, 'shr': shr, 'shc': shc,
+               'offr': offr, 'offc': offc, 'unitary': c['unitary'], 'out': 'none'}
+        return oracle(one, {'arr': impl['arr']})
     if c['op'] == 'large':
         return oracle_large(c, impl)
     if c['op'] == 'hist':
